@@ -115,6 +115,8 @@ def build_bases(tier: str) -> list[dict]:
     for rel, content in pool.data_files(800):
         if content and content not in texts:
             texts.append(content)
+    texts.extend(pool.LONG_TOKENS)
+    texts.extend(pool.glued_words())
     for t in sorted(set(texts)):
         bases.append({"text": t, "spelling": "LF", "carrier": t in carriers})
     # newline spellings and missing final newline for multi-line bases
